@@ -199,18 +199,21 @@ def mergeNodes (self : Node) (pelt : Elt) (right : Node) : Node :=
   | .leaf se => .leaf (se ++ pelt :: right.elts)
   | .node se sc => .node (se ++ pelt :: right.elts) (sc ++ right.children)
 
-/-- `parent.children[idx].merge(parent, idx)` -/
-def merge (es : List Elt) (cs : List Node) (idx : Nat) : List Elt × List Node :=
-  let m := mergeNodes (kidAt cs idx) (eltAt es idx) (kidAt cs (idx + 1))
-  (popAt es idx, setAt (popAt cs (idx + 1)) idx m)
+/-- `parent.children[idx].merge(parent, idx)`; `none` = the `IndexError` of
+`parent.children.pop(index + 1)` when there is no right sibling -/
+def merge (es : List Elt) (cs : List Node) (idx : Nat) : Option (List Elt × List Node) :=
+  if idx + 1 < cs.length then
+    let m := mergeNodes (kidAt cs idx) (eltAt es idx) (kidAt cs (idx + 1))
+    some (popAt es idx, setAt (popAt cs (idx + 1)) idx m)
+  else none
 
-/-- `parent.children[idx].balance(parent, idx)` -/
-def balance (t : Nat) (es : List Elt) (cs : List Node) (idx : Nat) : List Elt × List Node :=
+/-- `parent.children[idx].balance(parent, idx)`; `none` = `IndexError` (see `merge`) -/
+def balance (t : Nat) (es : List Elt) (cs : List Node) (idx : Nat) : Option (List Elt × List Node) :=
   match tryLeftSteal t es cs idx with
-  | some r => r
+  | some r => some r
   | none =>
     match tryRightSteal t es cs idx with
-    | some r => r
+    | some r => some r
     | none => if idx = 0 then merge es cs 0 else merge es cs (idx - 1)
 
 /-! ## insertion -/
@@ -292,6 +295,32 @@ def replaceAt : Nat → Node → Nat → Elt → Node × Option Elt
 inductive DelRes where
   | ok (elt : Option Elt)
   | valueError
+  | indexError
+
+/-- the step of `delete` before recursing into `children[i]`: if that child is minimal, balance it and
+search again ("things may have moved"); returns the parent's lists and the index to recurse into. -/
+def delPrep (t : Nat) (es : List Elt) (cs : List Node) (i : Nat) (key : Nat) :
+    Option (List Elt × List Node × Nat) :=
+  if isMinimal t (kidAt cs i) then
+    match balance t es cs i with
+    | some (es1, cs1) => some (es1, cs1, (searchInNode es1 key).1)
+    | none => none
+  else some (es, cs, i)
+
+/-- the step of `delete` after the recursive call: when the key was found in this (internal) node, the
+deleted least successor replaces it (`_get_node(original_key)`, `node.elts[i] = elt`). -/
+def delFinish (eq : Bool) (key : Nat) (fuel : Nat) (n1 : Node) (r : DelRes) : Node × DelRes :=
+  match r with
+  | .valueError => (n1, .valueError)
+  | .indexError => (n1, .indexError)
+  | .ok elt =>
+    if eq then
+      match elt with
+      | some s =>
+        let (n2, old) := replaceAt fuel n1 key s
+        (n2, .ok old)
+      | none => (n1, .ok none)
+    else (n1, .ok elt)
 
 /-- `delete(key, parent, exact)`; fuel = height.  The node must not be minimal unless it is the root. -/
 def delete (t : Nat) : Nat → Node → Nat → Option Elt → Node × DelRes
@@ -309,24 +338,11 @@ def delete (t : Nat) : Nat → Node → Nat → Option Elt → Node × DelRes
         let key' := if eq then (minimum f (kidAt cs (i + 1))).1 else key
         let i' := if eq then i + 1 else i
         let exact' := if eq then none else exact
-        -- balance the child if it is minimal, then search again
-        let (es1, cs1, i1) :=
-          if isMinimal t (kidAt cs i') then
-            let (es1, cs1) := balance t es cs i'
-            (es1, cs1, (searchInNode es1 key').1)
-          else (es, cs, i')
-        let (child', r) := delete t f (kidAt cs1 i1) key' exact'
-        let n1 := Node.node es1 (setAt cs1 i1 child')
-        match r with
-        | .valueError => (n1, .valueError)
-        | .ok elt =>
-          if eq then
-            match elt with
-            | some s =>
-              let (n2, old) := replaceAt (f + 1) n1 key s
-              (n2, .ok old)
-            | none => (n1, .ok none)
-          else (n1, .ok elt)
+        match delPrep t es cs i' key' with
+        | none => (.node es cs, .indexError)
+        | some (es1, cs1, i1) =>
+          let (child', r) := delete t f (kidAt cs1 i1) key' exact'
+          delFinish eq key (f + 1) (.node es1 (setAt cs1 i1 child')) r
 
 /-- the root collapse of `_delete` -/
 def collapseRoot (root : Node) : Node :=
@@ -334,10 +350,13 @@ def collapseRoot (root : Node) : Node :=
   | .node [] (c :: _) => c
   | r => r
 
-def deleteRoot (t : Nat) (root : Node) (key : Nat) (exact : Option Elt) : Node × DelRes :=
+/-- `_delete` below the mutability check.  `always = false` is the code as shipped: the root is
+collapsed only when an element was deleted.  `always = true` is the intended behaviour (collapse an
+empty root whenever `delete` returned normally). -/
+def deleteRoot (always : Bool) (t : Nat) (root : Node) (key : Nat) (exact : Option Elt) : Node × DelRes :=
   let (r, res) := delete t (height root) root key exact
   match res with
-  | .ok (some e) => (collapseRoot r, .ok (some e))
+  | .ok old => (if always || old.isSome then collapseRoot r else r, .ok old)
   | res => (r, res)
 
 /-! ## the tree handle (`BTree`, `BTreeDict`, `BTreeSet`) -/
@@ -348,13 +367,17 @@ structure Tree where
   size : Nat
   immutable : Bool
   inOrder : Bool
+  /-- which `_delete` the code implements (see `deleteRoot`) -/
+  collapseAlways : Bool
 
 inductive Outcome (α : Type) where
   | ok (a : α)
   | immutableErr
   | valueError
+  | indexError
 
-def Tree.empty (t : Nat) (io : Bool) : Tree := ⟨t, .leaf [], 0, false, io⟩
+def Tree.empty (t : Nat) (io : Bool) (collapseAlways : Bool := false) : Tree :=
+  ⟨t, .leaf [], 0, false, io, collapseAlways⟩
 
 /-- `BTree(original=…)` / `copy.copy`: allowed only from an immutable tree -/
 def Tree.clone (o : Tree) (io : Bool) : Option Tree :=
@@ -373,10 +396,11 @@ def Tree.insert (tr : Tree) (e : Elt) : Tree × Outcome (Option Elt) :=
 def Tree.delete (tr : Tree) (key : Nat) (exact : Option Elt) : Tree × Outcome (Option Elt) :=
   if tr.immutable then (tr, .immutableErr)
   else
-    match deleteRoot tr.t tr.root key exact with
+    match deleteRoot tr.collapseAlways tr.t tr.root key exact with
     | (r, .ok old) =>
       ({ tr with root := r, size := if old.isSome then tr.size - 1 else tr.size }, .ok old)
     | (r, .valueError) => ({ tr with root := r }, .valueError)
+    | (r, .indexError) => ({ tr with root := r }, .indexError)
 
 def Tree.get (tr : Tree) (key : Nat) : Option Elt := BTree.get (height tr.root) tr.root key
 
